@@ -604,7 +604,6 @@ func l1HandlerIndexEveryEntry(c *Ctx, rule string) {
 	}
 }
 
-
 // c08TouchesField: the call's receiver or an argument is (a load of) the field named fld, and the callee is one of names.
 func c08TouchesField(s Site, fld string, names []string) bool {
 	nm := ""
